@@ -222,6 +222,35 @@ def run_case(case):
     if M_first.CODE != code_first or M_first.CODE != fsic.build_model_definition(symbols) or getattr(fsic.BaseModel, 'CODE', None) is not None:
         out.append(('CODE-attribute:after-another-build', 'unchanged, and none on BaseModel', [M_first.CODE == code_first, getattr(fsic.BaseModel, 'CODE', None) is None],
                     'building another model changed the CODE of a class built earlier (or left CODE on BaseModel)'))
+    # 2b'. a converter is whatever callable the caller passes: also an object that happens to be falsy (an empty table of overrides)
+    class TableConverter(dict):
+        def __call__(self, x):
+            return self.get(x.name, '# TABLE<%s>\n%s' % (x.name, x.code))
+    if carriers:
+        for table in (TableConverter(), TableConverter({carriers[0].name: '# OVERRIDE\npass'})):
+            try:
+                text_t = fsic.build_model_definition(symbols, converter=table)
+            except Exception as e:
+                out.append(('converter-object:%s' % type(e).__name__, 'builds', repr(e)[:160], 'a callable object as converter'))
+                break
+            if text_t.count('# TABLE<') + text_t.count('# OVERRIDE') != len(carriers):
+                out.append(('converter-object:ignored', len(carriers), text_t.count('# TABLE<') + text_t.count('# OVERRIDE'), 'a converter object that is falsy (an empty dict subclass) was not used'))
+                break
+    # 2b''. lag and lead lengths against the symbols themselves (all build routes may agree with each other and still be wrong):
+    #      the deepest lag / furthest lead over variables, parameters and errors alike; explicit values win over min_*
+    series = [x for x in symbols if x.type.name in ('ENDOGENOUS', 'EXOGENOUS', 'PARAMETER', 'ERROR') and isinstance(x.lags, int) and isinstance(x.leads, int)]
+    ref_lags = max([0] + [-x.lags for x in series])
+    ref_leads = max([0] + [x.leads for x in series])
+    for opt, want in ((dict(), (ref_lags, ref_leads)), (dict(min_lags=1, min_leads=2), (max(ref_lags, 1), max(ref_leads, 2))),
+                      (dict(lags=1, min_lags=3, leads=1, min_leads=3), (1, 1)), (dict(leads=0, min_leads=2), (ref_lags, 0))):
+        try:
+            M_o = fsic.build_model(symbols, **opt)
+        except Exception as e:
+            out.append(('lengths:%s' % type(e).__name__, 'builds', repr(e)[:120], 'build_model with %r' % (opt,)))
+            break
+        if (M_o.LAGS, M_o.LEADS) != want:
+            out.append(('lengths:reference', want, (M_o.LAGS, M_o.LEADS), 'LAGS/LEADS with %r differ from the symbols\' own lag and lead lengths' % (opt,)))
+            break
     # 2c. symbols without an equation contribute variables but no code: switch each equation off in turn (equation=None, the
     #     rest of the symbol - its code included - left as it was) and the converter is no longer called for it
     for k, victim in enumerate(carriers[:3]):
